@@ -2,6 +2,7 @@
 package main
 
 import (
+	"strings"
 	"encoding/json"
 	"fmt"
 	"time"
@@ -369,12 +370,52 @@ func main() {
 			for i := range oneOfSpecs() {
 				out = append(out, batch{"oneof", i, i + 1})
 			}
+			out = append(out, batch{"shapes", 0, len(ukit.ShapeSpecs())})
 			return out
 		},
 		Run: func(tier string, raw json.RawMessage, from int, deadline time.Time) ux.Result {
 			var b batch
 			_ = json.Unmarshal(raw, &b)
 			var res ux.Result
+			if b.Kind == "shapes" {
+				// the struct menu (value fields, pointer fields, nested structs, treat-empty-as-default fields with conflict
+				// rules): Unserialize against the reference, and - struct-mapped native values being outside the reference -
+				// Validate and Serialize must at least accept every value Unserialize has just produced
+				for _, spec := range ukit.ShapeSpecs() {
+					var sch schema.Type
+					if pan, _, _ := ukit.Call(func() { sch = ukit.Build(spec) }); pan {
+						continue
+					}
+					c := &checker{res: &res, spec: spec, tier: tier}
+					c.orders = true
+					inputs := ukit.RawValues(spec)
+					what := "struct-mapped object"
+					for _, p := range spec.Props {
+						if t := p.Type; t.Kind == ukit.KObject && t.Struct != "" && !strings.HasSuffix(t.Struct, "*") && len(t.Props) > 0 {
+							// the sub-object default injection of by-value struct fields is a ledgered behaviour (see C09); its
+							// consequences get a signature of their own
+							what = "struct-mapped object with a by-value struct-mapped sub-object"
+						}
+					}
+					c.run(sch, inputs, what)
+					for i, raw := range inputs {
+						c.guard("Validate", i, raw, func() {
+							got, err := sch.Unserialize(ukit.DeepCopy(raw))
+							if err != nil {
+								return
+							}
+							res.Evaluations++
+							if verr := sch.Validate(got); verr != nil {
+								c.fail("struct-mapped object: Validate applies other presence rules than Unserialize", fmt.Sprintf("Unserialize(%s) = %s; Validate of that value -> %v", ukit.Show(raw), ukit.Show(got), verr), "Validate", i, raw)
+							} else if _, serr := sch.Serialize(got); serr != nil {
+								c.fail("struct-mapped object: Serialize applies other presence rules than Unserialize", fmt.Sprintf("Unserialize(%s) = %s; Serialize of that value -> %v", ukit.Show(raw), ukit.Show(got), serr), "Validate", i, raw)
+							}
+						})
+					}
+					res.Nontrivial++
+				}
+				return res
+			}
 			if b.Kind == "oneof" {
 				for _, spec := range oneOfSpecs()[b.Lo:b.Hi] {
 					var sch schema.Type
@@ -476,7 +517,7 @@ func main() {
 			}
 			return res.Findings
 		},
-		Rule: "Unserialize on the constructor-built instance runs under the sorted and under every single deviating iteration order of every map it ranges over (map-order seam; the other operations under the sorted order); objects with 1-3 properties over property types {string[1..], int[0..5], nested object}: ALL combinations of the per-property flags required / required_if / required_if_not / conflicts (each over every subset of the other properties) / default / disabled for n=1 (3 types) and n=2 (string,int; map-based and struct-mapped with pointer fields), <=3 set flags for the other n=2 type pairs and value-field structs, <=2 (thorough 3) set flags for n=3; x every subset of supplied properties x {valid, type-invalid} value per supplied property in two map representations x {undeclared key, non-string key, nil, list, lone values}; every map-based object and one-of twice: built by the constructors, and loaded from its own description through the meta-schema without constructors (first use of all lazily computed state); Unserialize is compared with the reference presence interpreter (verdict and value incl. defaults), Validate/Serialize with the reference on every accepted native value and its one-key-removed / undeclared-key-added neighbours. One-ofs: string and int keys x inlined / not x map-based, struct-mapped and referenced members x discriminator in every representation / unknown / missing / wrong type x member-valid and member-invalid payloads; non-trivial = distinct object / one-of schemas",
+		Rule: "Unserialize on the constructor-built instance runs under the sorted and under every single deviating iteration order of every map it ranges over (map-order seam; the other operations under the sorted order); objects with 1-3 properties over property types {string[1..], int[0..5], nested object}: ALL combinations of the per-property flags required / required_if / required_if_not / conflicts (each over every subset of the other properties) / default / disabled for n=1 (3 types) and n=2 (string,int; map-based and struct-mapped with pointer fields), <=3 set flags for the other n=2 type pairs and value-field structs, <=2 (thorough 3) set flags for n=3; x every subset of supplied properties x {valid, type-invalid} value per supplied property in two map representations x {undeclared key, non-string key, nil, list, lone values}; every map-based object and one-of twice: built by the constructors, and loaded from its own description through the meta-schema without constructors (first use of all lazily computed state); Unserialize is compared with the reference presence interpreter (verdict and value incl. defaults), Validate/Serialize with the reference on every accepted native value and its one-key-removed / undeclared-key-added neighbours. The struct menu of the universe (9 shapes): Unserialize against the reference, and Validate / Serialize must accept every value Unserialize produced. One-ofs: string and int keys x inlined / not x map-based, struct-mapped and referenced members x discriminator in every representation / unknown / missing / wrong type x member-valid and member-invalid payloads; non-trivial = distinct object / one-of schemas",
 		Assumptions: []string{
 			"defaults are applied first and never override a supplied value; then presence rules; a disabled property that is supplied or defaulted is 'in use'",
 			"Unknown (skipped): disabled properties in native values, struct-mapped native values, named string key types",
